@@ -50,16 +50,18 @@ pub fn seeds(p: Proto) -> Vec<Vec<u8>> {
 pub const MSG_LENGTHS: [usize; 30] = [
     0, 1, 2, 15, 16, 17, 31, 32, 33, 47, 48, 49, 63, 64, 65, 127, 128, 129, 255, 256, 257, 1023, 1024, 1025, 4095, 4096, 4097, 65535, 65536, 65537,
 ];
-pub const MSG_CLASSES: usize = 3;
+pub const MSG_CLASSES: usize = 4;
 
 /// A UTF-8 message of exactly `len` bytes in content class `class`:
 /// 0 = JSON-looking ASCII; 1 = 2/3/4-byte code points mixed (cut at a character boundary, ASCII-padded);
-/// 2 = ASCII with embedded NUL, '.', '=', '"' and '\'.
+/// 2 = ASCII with embedded NUL, '.', '=', '"' and '\';
+/// 3 = text lines with leading blanks and CR LF, ending in a line break (white space at both ends).
 pub fn message(len: usize, class: usize) -> String {
     let unit: &str = match class {
         0 => "{\"data\":\"this is a signed message\",\"exp\":\"2022-01-01T00:00:00+00:00\"}",
         1 => "\u{00e9}\u{2603}\u{1d11e}a\u{00df}\u{4e2d}\u{1f642}",
-        _ => "a\0b.c=d\"e\\f.\0.",
+        2 => "a\0b.c=d\"e\\f.\0.",
+        _ => " \tline one\r\nline two \n",
     };
     let mut s = String::with_capacity(len + 8);
     'outer: loop {
@@ -74,7 +76,11 @@ pub fn message(len: usize, class: usize) -> String {
         }
     }
     while s.len() < len {
-        s.push('x');
+        s.push(if class == 3 { '\n' } else { 'x' });
+    }
+    if class == 3 && len > 0 && !s.ends_with('\n') && !s.ends_with('\r') {
+        s.pop();
+        s.push('\n');
     }
     debug_assert_eq!(s.len(), len);
     s
